@@ -264,8 +264,8 @@ func (ts *TernarySampler) sampleSparse(pol Poly, f func(a, b, c uint64) uint64) 
 	}
 
 	for _, i := range index {
-		for k := range moduli {
-			coeffs[k][i] = 0
+		for k, qi := range moduli {
+			coeffs[k][i] = f(coeffs[k][i], 0, qi)
 		}
 	}
 }
